@@ -1,7 +1,7 @@
 (* C07 - Issued SD-JWTs are spec-conformant as judged by an independent verifier. *)
 From Coq Require Import List String Ascii Bool Arith.
 Import ListNotations.
-Require Import SDJ.Json SDJ.Wire SDJ.Model2 SDJ.Out SDJ.Split SDJ.Restore2 SDJ.Issuer2 SDJ.C07Proofs.
+Require Import SDJ.Json SDJ.Wire SDJ.Model2 SDJ.Out SDJ.Split SDJ.Restore2 SDJ.Issuer1 SDJ.Issuer2 SDJ.C07Proofs.
 Local Open Scope string_scope.
 
 (* a disclosure built for (name, value) decodes back to that name and value, with the digest being the
